@@ -239,6 +239,12 @@ func (c *contentValidator) ValidatePermissionChange(ch *aclrecordproto.AclAccoun
 		return ErrNoSuchAccount
 	}
 
+	if currentState.Permissions.NoPermissions() {
+		// an account that holds no permission (removed, left, only requested to join) holds no read key either:
+		// it can only be admitted again by a change that carries the key for it (AccountsAdd, RequestAccept, InviteJoin)
+		return ErrInsufficientPermissions
+	}
+
 	if currentState.Permissions == AclPermissionsGuest {
 		// it shouldn't be possible to change permission of guest user
 		// it should be only possible to remove it with AccountRemove acl change
